@@ -247,6 +247,23 @@ Section WithQuery.
         | _ => []
         end) (v_filters w)) vs.
 
+  (* the fourth clause (repair of F11): per fold of THIS component, in Eid order, the context-field
+     tags it imports that point at `vid`, then the tag operands of its fold-count filters that do *)
+  Definition fold_tag_uses_of (vid : N) (ss : list step) : list string :=
+    flat_map (fun s =>
+      match s with
+      | SEdge _ => []
+      | SFold h _ =>
+          flat_map (fun t => match t with
+                             | FRContext cf => if N.eqb vid (cf_vid cf) then [cf_name cf] else []
+                             | FRFold _ => []
+                             end) (fo_imported h)
+          ++ flat_map (fun pf => match pf_arg pf with
+                                 | Some (ATag (FRContext cf)) => if N.eqb vid (cf_vid cf) then [cf_name cf] else []
+                                 | _ => []
+                                 end) (fo_post h)
+      end) ss.
+
   (* VertexInfo::required_properties *)
   Definition required_properties (vi : vinfo) : res (list string) :=
     do comp <- current_component vi;
@@ -254,7 +271,8 @@ Section WithQuery.
     let p1 := flat_map (fun o => if N.eqb (cf_vid (snd o)) (v_vid v) then [cf_name (snd o)] else []) (c_outputs comp) in
     let p2 := map vf_field (v_filters v) in
     let p3 := tag_uses_of (v_vid v) (c_vertices comp) in
-    Ok (dedup_str [] (p1 ++ p2 ++ p3)).
+    let p4 := fold_tag_uses_of (v_vid v) (c_steps comp) in
+    Ok (dedup_str [] (p1 ++ p2 ++ p3 ++ p4)).
 
   (* filters_on_local_property *)
   Definition filters_on (v : ir_vertex) (p : string) : list vfilter :=
@@ -905,11 +923,30 @@ Fixpoint fold_roots_ok (c : ir_component) {struct c} : bool :=
          end) ss
   end.
 
+(* the context-field tags a fold imports are properties of vertices of the fold's parent component
+   (IRFold::imported_tags: "tags from the directly-enclosing component"; compute_fold indexes
+   parent_component.vertices with them) *)
+Fixpoint imports_local (c : ir_component) {struct c} : bool :=
+  match c with
+  | mkComp _ vs ss _ =>
+      (fix go (ss : list step) : bool :=
+         match ss with
+         | [] => true
+         | SEdge _ :: r => go r
+         | SFold h sub :: r =>
+             forallb (fun t => match t with
+                               | FRContext cf => match find_vertex vs (cf_vid cf) with Some _ => true | None => false end
+                               | FRFold _ => true
+                               end) (fo_imported h)
+             && imports_local sub && go r
+         end) ss
+  end.
+
 (* the boolean form, evaluated on every generated query by the correspondence run: vids are unique
    (A.4 #4), outputs name vertices of their own component (#8), a fold's to_vid is the root of its
-   component (#1) *)
+   component (#1), imported context tags are local to the fold's parent component (#6) *)
 Definition wf_hints_query (q : ir_query) : bool :=
-  nodupN (all_vids (q_comp q)) && outputs_local (q_comp q) && fold_roots_ok (q_comp q).
+  nodupN (all_vids (q_comp q)) && outputs_local (q_comp q) && fold_roots_ok (q_comp q) && imports_local (q_comp q).
 
 
 (* insertion sort of (N * string) pairs, duplicates removed *)
